@@ -134,6 +134,20 @@ def room_ids(h, w, rooms):
     return rid
 
 
+def single_clue_layouts(shape_list, alphabet, blank, gh=0, gw=0):
+    """systematic layouts: exactly one clue, at every position, every value of the alphabet (gh/gw: clue grid is larger
+    than the board by that much, e.g. lattice-point clues)"""
+    out = []
+    for (h, w) in shape_list:
+        for y in range(h + gh):
+            for x in range(w + gw):
+                for v in alphabet:
+                    p = [[blank] * (w + gw) for _ in range(h + gh)]
+                    p[y][x] = v
+                    out.append((h, w, "at%d,%d=%s" % (y, x, v), p))
+    return out
+
+
 class Base:
     module = None
     fn = None
@@ -194,6 +208,8 @@ class Slitherlink(Base):
             for k in range(n):
                 p = rand_layout(rng, h, w, [0, 1, 2, 3, 3, 2, 4], rng.choice([0.3, 0.6, 1.0]))
                 out.append({"tag": "%dx%d/r%d" % (h, w, k), "h": h, "w": w, "problem": [[-1 if v is None else v for v in row] for row in p]})
+        for (h, w, tag, p) in single_clue_layouts([(1, 2), (2, 1), (2, 3), (3, 2)] if tier == "quick" else [(1, 2), (2, 1), (2, 3), (3, 2), (1, 4), (4, 1)], [0, 1, 2, 3], -1, 0, 0):
+            out.append({"tag": "%dx%d/%s" % (h, w, tag), "h": h, "w": w, "problem": p})
         return out
 
     def call(self, mod, d):
@@ -235,6 +251,8 @@ class Masyu(Base):
             for k in range(6 if tier == "quick" else 30):
                 p = rand_layout(rng, h, w, [1, 2], rng.choice([0.15, 0.3, 0.6]))
                 out.append({"tag": "%dx%d/r%d" % (h, w, k), "h": h, "w": w, "problem": [[0 if v is None else v for v in row] for row in p]})
+        for (h, w, tag, p) in single_clue_layouts([(1, 3), (3, 1), (2, 3), (3, 2)] if tier == "quick" else [(1, 3), (3, 1), (2, 3), (3, 2), (2, 4), (4, 2), (3, 3)], [1, 2], 0, 0, 0):
+            out.append({"tag": "%dx%d/%s" % (h, w, tag), "h": h, "w": w, "problem": p})
         return out
 
     def call(self, mod, d):
@@ -333,6 +351,8 @@ class Nurikabe(Base):
                 for _ in range(rng.randint(1, 3)):
                     p[rng.randrange(h)][rng.randrange(w)] = rng.choice([1, 1, 2, 2, 3, 4, -1])
                 out.append({"tag": "%dx%d/r%d" % (h, w, k), "h": h, "w": w, "problem": p})
+        for (h, w, tag, p) in single_clue_layouts([(1, 3), (3, 1), (2, 3), (3, 2)] if tier == "quick" else [(1, 3), (3, 1), (2, 3), (3, 2), (2, 4), (4, 2), (3, 3)], [1, 2, 3, -1], 0, 0, 0):
+            out.append({"tag": "%dx%d/%s" % (h, w, tag), "h": h, "w": w, "problem": p})
         return out
 
     def call(self, mod, d):
@@ -410,6 +430,8 @@ class Akari(Base):
             for k in range(8 if tier == "quick" else 40):
                 p = rand_layout(rng, h, w, [-1, -1, 0, 1, 2, 3, 4], rng.choice([0.15, 0.3, 0.5]))
                 out.append({"tag": "%dx%d/r%d" % (h, w, k), "h": h, "w": w, "problem": [[-2 if v is None else v for v in row] for row in p]})
+        for (h, w, tag, p) in single_clue_layouts([(1, 3), (3, 1), (2, 3), (3, 2)] if tier == "quick" else [(1, 3), (3, 1), (2, 3), (3, 2), (2, 4), (4, 2), (3, 3)], [-1, 0, 1, 2], -2, 0, 0):
+            out.append({"tag": "%dx%d/%s" % (h, w, tag), "h": h, "w": w, "problem": p})
         return out
 
     def call(self, mod, d):
@@ -517,6 +539,8 @@ class Fillomino(Base):
             for k in range(5 if tier == "quick" else 25):
                 p = rand_layout(rng, h, w, [1, 2, 2, 3, 4], rng.choice([0.3, 0.6]))
                 out.append({"tag": "%dx%d/r%d" % (h, w, k), "h": h, "w": w, "problem": [[0 if v is None else v for v in row] for row in p]})
+        for (h, w, tag, p) in single_clue_layouts([(1, 3), (3, 1), (2, 2)] if tier == "quick" else [(1, 3), (3, 1), (2, 2), (2, 3), (3, 2)], [1, 2, 3, 4], 0, 0, 0):
+            out.append({"tag": "%dx%d/%s" % (h, w, tag), "h": h, "w": w, "problem": p})
         return out
 
     def call(self, mod, d):
@@ -549,6 +573,8 @@ class Nurimisaki(Base):
                 for _ in range(rng.randint(1, 2)):
                     p[rng.randrange(h)][rng.randrange(w)] = rng.choice([0, 0, 2, 2, 3])
                 out.append({"tag": "%dx%d/r%d" % (h, w, k), "h": h, "w": w, "problem": p})
+        for (h, w, tag, p) in single_clue_layouts([(1, 3), (3, 1), (2, 3), (3, 2), (1, 4), (4, 1)] if tier == "quick" else [(1, 3), (3, 1), (2, 3), (3, 2), (1, 4), (4, 1), (2, 4), (4, 2), (3, 3)], [0, 2, 3], -1, 0, 0):
+            out.append({"tag": "%dx%d/%s" % (h, w, tag), "h": h, "w": w, "problem": p})
         return out
 
     def call(self, mod, d):
@@ -599,6 +625,8 @@ class Yinyang(Base):
             for k in range(6 if tier == "quick" else 30):
                 p = rand_layout(rng, h, w, [1, 2], rng.choice([0.2, 0.4]))
                 out.append({"tag": "%dx%d/r%d" % (h, w, k), "h": h, "w": w, "problem": [[0 if v is None else v for v in row] for row in p]})
+        for (h, w, tag, p) in single_clue_layouts([(2, 3), (3, 2)] if tier == "quick" else [(2, 3), (3, 2), (2, 4), (4, 2), (3, 3)], [1, 2], 0, 0, 0):
+            out.append({"tag": "%dx%d/%s" % (h, w, tag), "h": h, "w": w, "problem": p})
         return out
 
     def call(self, mod, d):
@@ -632,6 +660,8 @@ class Creek(Base):
             for k in range(8 if tier == "quick" else 40):
                 p = rand_layout(rng, h + 1, w + 1, [0, 1, 1, 2, 2, 3, 4], rng.choice([0.2, 0.4, 0.8]))
                 out.append({"tag": "%dx%d/r%d" % (h, w, k), "h": h, "w": w, "problem": [[-1 if v is None else v for v in row] for row in p]})
+        for (h, w, tag, p) in single_clue_layouts([(1, 2), (2, 1), (2, 3), (3, 2)] if tier == "quick" else [(1, 2), (2, 1), (2, 3), (3, 2), (1, 4), (4, 1)], [0, 1, 2, 3, 4], -1, 1, 1):
+            out.append({"tag": "%dx%d/%s" % (h, w, tag), "h": h, "w": w, "problem": p})
         return out
 
     def call(self, mod, d):
@@ -660,6 +690,8 @@ class Gokigen(Base):
             for k in range(8 if tier == "quick" else 40):
                 p = rand_layout(rng, h + 1, w + 1, [0, 1, 1, 2, 2, 3, 4], rng.choice([0.2, 0.5]))
                 out.append({"tag": "%dx%d/r%d" % (h, w, k), "h": h, "w": w, "problem": [[-1 if v is None else v for v in row] for row in p]})
+        for (h, w, tag, p) in single_clue_layouts([(1, 2), (2, 1), (2, 2)] if tier == "quick" else [(1, 2), (2, 1), (2, 2), (2, 3), (3, 2)], [0, 1, 2, 3, 4], -1, 1, 1):
+            out.append({"tag": "%dx%d/%s" % (h, w, tag), "h": h, "w": w, "problem": p})
         return out
 
     def call(self, mod, d):
@@ -861,6 +893,8 @@ class Geradeweg(Base):
                 for _ in range(rng.randint(1, 2)):
                     p[rng.randrange(h)][rng.randrange(w)] = rng.choice([1, 1, 2, 2, 3])
                 out.append({"tag": "%dx%d/r%d" % (h, w, k), "h": h, "w": w, "problem": p})
+        for (h, w, tag, p) in single_clue_layouts([(1, 3), (3, 1), (2, 3), (3, 2)] if tier == "quick" else [(1, 3), (3, 1), (2, 3), (3, 2), (2, 4), (4, 2), (3, 3)], [1, 2, 3], 0, 0, 0):
+            out.append({"tag": "%dx%d/%s" % (h, w, tag), "h": h, "w": w, "problem": p})
         return out
 
     def call(self, mod, d):
@@ -1079,6 +1113,8 @@ class View(Base):
             for k in range(8 if tier == "quick" else 30):
                 p = rand_layout(rng, h, w, [0, 0, 1, 1, 2, 3], rng.choice([0.2, 0.5]))
                 out.append({"tag": "%dx%d/r%d" % (h, w, k), "h": h, "w": w, "problem": [[-1 if v is None else v for v in row] for row in p]})
+        for (h, w, tag, p) in single_clue_layouts([(1, 3), (3, 1), (2, 2)] if tier == "quick" else [(1, 3), (3, 1), (2, 2), (2, 3), (3, 2)], [0, 1, 2, 3], -1, 0, 0):
+            out.append({"tag": "%dx%d/%s" % (h, w, tag), "h": h, "w": w, "problem": p})
         return out
 
     def call(self, mod, d):
